@@ -13,7 +13,7 @@ package sync2
 
 // BOUNDED stand-in for the trusted contract below (never counted as proved): every sequence of up to N calls of
 // Load/Store/LoadOrStore/LoadAndDelete/Delete/Range over 3 keys x 2 values from the zero Map, compared with map[K]V.
-bounded C03 4 5 sync2.Map sequential contract vs builtin map, all call sequences up to the bound over 3 keys x 2 values
+bounded C03 5 6 sync2.Map sequential contract vs builtin map, all call sequences up to the bound over 3 keys x 2 values
 
 func Map.Load
   trusted sequential specification of sync2.Map (C04 is not proved)
@@ -159,4 +159,18 @@ func NewSetFromSlice
   ensures[members] forall x E :: {mem(result, x)} mem(result, x) == (exists m :: 0 <= m && m < len(slice) && slice[m] == x)
   loop 0 invariant -1 <= rangeindex && rangeindex < len(slice)
   loop 0 invariant forall x E :: {mem(&set, x)} mem(&set, x) == (exists j :: 0 <= j && j <= rangeindex && slice[j] == x)
+
+func NewSetFromKeys
+  property C03
+  ensures[fresh]   result != nil && fresh(setmap(result))
+  ensures[members] forall x K :: {mem(result, x)} mem(result, x) == has(m, x)
+  loop 0 invariant forall x K :: {mem(&set, x)} {visited[x]} mem(&set, x) == visited[x]
+  loop 0 invariant forall x K :: {visited[x]} visited[x] ==> has(m, x)
+
+func NewSetFromValues
+  property C03
+  ensures[fresh]   result != nil && fresh(setmap(result))
+  ensures[members] forall x V :: {mem(result, x)} mem(result, x) == (exists k K :: has(m, k) && m[k] == x)
+  loop 0 invariant forall x V :: {mem(&set, x)} mem(&set, x) == (exists k K :: visited[k] && has(m, k) && m[k] == x)
+  loop 0 invariant forall k K :: {visited[k]} visited[k] ==> has(m, k)
 @*/
